@@ -259,3 +259,396 @@ Proof.
     pose proof (dec_chain_nth st Hd (length st - S (S i)) ltac:(lia)) as [_ A].
     replace (S (length st - S (S i))) with (length st - S i)%nat in A by lia. apply A. lia.
 Qed.
+
+(* ---------- C05: jensen_chain ---------- *)
+(* a randomisation over points: list of (weight, point) *)
+Definition wsum (f : pt -> Q) (wp : list (Q * pt)) : Q := qsum (map (fun e => fst e * f (snd e)) wp).
+Definition wtot (wp : list (Q * pt)) : Q := qsum (map fst wp).
+
+Lemma is_upper_hull_nth h pts : is_upper_hull h pts = true -> forall i, (S i < length h)%nat ->
+  forall p, In p pts -> cross (nth i h dpt) (nth (S i) h dpt) p <= 0.
+Proof.
+  induction h as [|a t IH]; intros Hu i Hi p Hp; [cbn in Hi; lia|].
+  cbn [is_upper_hull] in Hu. destruct t as [|b t']; [cbn in Hi; lia|].
+  apply andb_true_iff in Hu. destruct Hu as [H1 H2].
+  destruct i as [|i].
+  - cbn [nth]. rewrite forallb_forall in H1. apply Qleb_le, H1, Hp.
+  - cbn [nth length] in *. apply (IH H2 i ltac:(lia) p Hp).
+Qed.
+
+Lemma cross_affine a b wp :
+  wsum (cross a b) wp ==
+  (px b - px a) * (wsum py wp - py a * wtot wp) - (py b - py a) * (wsum px wp - px a * wtot wp).
+Proof.
+  unfold wsum, wtot. induction wp as [|[w p] wp IH]; cbn [map qsum fst snd]; [ring|].
+  rewrite IH. unfold cross. ring.
+Qed.
+
+Lemma wsum_nonpos f wp : (forall e, In e wp -> 0 <= fst e /\ f (snd e) <= 0) -> wsum f wp <= 0.
+Proof.
+  unfold wsum. induction wp as [|[w p] wp IH]; intro H; cbn [map qsum fst snd]; [lra|].
+  destruct (H (w, p) ltac:(left; reflexivity)) as [Hw Hf]. cbn [fst snd] in *.
+  specialize (IH ltac:(intros e He; apply H; right; exact He)).
+  assert (w * f p <= 0) by nra. lra.
+Qed.
+
+(* if chain is an upper hull of pts in the boolean sense, every convex combination of pts lies on
+   or below the interpolated curve of the chain (the hull is the concave envelope) *)
+Theorem jensen_chain h pts wp x : chain_ok (map px h) -> is_upper_hull h pts = true ->
+  (forall e, In e wp -> 0 <= fst e /\ In (snd e) pts) -> wtot wp == 1 ->
+  wsum px wp == x -> 0 <= x -> x <= 1 ->
+  wsum py wp <= interp_curve h x.
+Proof.
+  intros Hc Hu Hw Ht HX HX0 HX1. set (Y := wsum py wp) in *.
+  assert (Hrow : ipt_ok h (if Qeqb x 0 then interp_first h x else interp_rest h x) /\
+                 ix (if Qeqb x 0 then interp_first h x else interp_rest h x) == x).
+  { destruct (Qeqb x 0) eqn:E.
+    - apply Qeqb_eq in E. split; [apply interp_index_valid_first; assumption | reflexivity].
+    - apply Qeqb_neq in E. split; [apply interp_index_valid_rest; try assumption; lra | reflexivity]. }
+  unfold interp_curve.
+  destruct Hrow as [(i & Hi & _ & _ & P0 & P1 & Ps & Px & Py & Pab) Hx].
+  set (r := if Qeqb x 0 then interp_first h x else interp_rest h x) in *.
+  set (a := nth i h dpt) in *. set (b := nth (S i) h dpt) in *.
+  assert (Hcross : wsum (cross a b) wp <= 0).
+  { apply wsum_nonpos. intros e He. destruct (Hw e He) as [W I]. split; [exact W|].
+    apply (is_upper_hull_nth h pts Hu i Hi _ I). }
+  rewrite cross_affine, Ht, HX in Hcross. fold Y in Hcross.
+  rewrite Py. rewrite Hx in Px.
+  assert (E1 : x - px a == ip1 r * (px b - px a)) by nra.
+  assert (D : 0 < px b - px a) by lra.
+  assert (K : (px b - px a) * (Y - (ip0 r * py a + ip1 r * py b)) <= 0).
+  { assert (E2 : ip0 r == 1 - ip1 r) by lra. rewrite E2.
+    assert (E3 : (px b - px a) * (Y - ((1 - ip1 r) * py a + ip1 r * py b)) ==
+                 (px b - px a) * (Y - py a * 1) - (py b - py a) * (ip1 r * (px b - px a))) by ring.
+    rewrite E3, <- E1. lra. }
+  destruct (Qlt_le_dec (ip0 r * py a + ip1 r * py b) Y) as [L|L]; [|exact L].
+  exfalso. assert (0 < (px b - px a) * (Y - (ip0 r * py a + ip1 r * py b))) by (apply Qmult_lt_0_compat; lra). lra.
+Qed.
+
+(* ---------- the returned chain is strictly concave ---------- *)
+(* every three consecutive hull points fail the drop test: the middle one is strictly above the
+   segment joining its neighbours (one half of hull correctness; the other half -- no input point
+   lies above the chain -- is the boolean is_upper_hull, evaluated per case) *)
+Fixpoint conc (st : list pt) : Prop :=
+  match st with
+  | r2 :: st' =>
+      match st' with
+      | r1 :: r0 :: _ => drop_test r0 r1 r2 = false /\ conc st'
+      | _ => True
+      end
+  | [] => True
+  end.
+
+Lemma conc_tail a st : conc (a :: st) -> conc st.
+Proof. cbn [conc]. destruct st as [|b [|c r]]; try (intros; exact I). intros [_ H]; exact H. Qed.
+
+Lemma conc_suffix pre s : conc (pre ++ s) -> conc s.
+Proof. induction pre as [|a pre IH]; [auto|]. intro H. apply IH, (conc_tail a), H. Qed.
+
+Lemma conc_step st r2 : conc st -> conc (hull_step st r2).
+Proof.
+  intro Hc. unfold hull_step. destruct (pop_stack_spec st r2) as ((pre & Hp) & _ & Ht).
+  assert (Hs : conc (pop_stack st r2)) by (apply (conc_suffix pre); rewrite <- Hp; exact Hc).
+  destruct (pop_stack st r2) as [|r1 [|r0 rest]]; cbn [conc]; try exact I. split; assumption.
+Qed.
+
+Lemma hull_rev_conc pts : forall st, conc st -> conc (fold_left hull_step pts st).
+Proof. induction pts as [|r pts IH]; intros st H; [exact H|]. cbn [fold_left]. apply IH, conc_step, H. Qed.
+
+Lemma conc_nth st : conc st -> forall j, (S (S j) < length st)%nat ->
+  drop_test (nth (S (S j)) st dpt) (nth (S j) st dpt) (nth j st dpt) = false.
+Proof.
+  induction st as [|r2 st' IH]; intros Hc j Hj; [cbn in Hj; lia|].
+  destruct j as [|j].
+  - destruct st' as [|r1 [|r0 rest]]; cbn in Hj; try lia. cbn [conc] in Hc. cbn [nth]. apply Hc.
+  - cbn [nth length] in *. apply IH; [apply (conc_tail r2), Hc | lia].
+Qed.
+
+Theorem hull_concave pts i : (S (S i) < length (hull pts))%nat ->
+  drop_test (nth i (hull pts) dpt) (nth (S i) (hull pts) dpt) (nth (S (S i)) (hull pts) dpt) = false.
+Proof.
+  unfold hull. rewrite rev_length. intro Hi. set (st := hull_rev pts) in *.
+  assert (Hc : conc st) by (apply hull_rev_conc; exact I).
+  rewrite !rev_nth by lia.
+  pose proof (conc_nth st Hc (length st - S (S (S i))) ltac:(lia)) as H.
+  replace (S (S (length st - S (S (S i))))) with (length st - S i)%nat in H by lia.
+  replace (S (length st - S (S (S i)))) with (length st - S (S i))%nat in H by lia.
+  exact H.
+Qed.
+
+(* ====================================================================================== *)
+(* hull_is_upper_hull: the monotone chain returns an upper hull of its (sorted) input     *)
+(* ====================================================================================== *)
+Lemma drop_test_true r0 r1 r2 : drop_test r0 r1 r2 = true <-> cross r0 r2 r1 <= 0.
+Proof.
+  unfold drop_test, drop_test_xy, cross. rewrite Qleb_le. split; intro H; lra.
+Qed.
+Lemma drop_test_false r0 r1 r2 : drop_test r0 r1 r2 = false <-> 0 < cross r0 r2 r1.
+Proof.
+  unfold drop_test, drop_test_xy, cross. rewrite Qleb_gt. split; intro H; lra.
+Qed.
+Lemma cross_swap a b c : cross a b c == - cross a c b.
+Proof. unfold cross. ring. Qed.
+Lemma cross_self a b : cross a b b == 0.
+Proof. unfold cross. ring. Qed.
+
+(* four-point facts (b is the pivot in each) *)
+Lemma cross_chain a b c p : px a <= px b -> px b < px c -> px c <= px p ->
+  0 < cross a c b -> cross b c p <= 0 -> cross a b p <= 0.
+Proof.
+  unfold cross. intros H1 H2 H3 H4 H5.
+  set (a1 := px a - px b) in *. set (a2 := py a - py b) in *.
+  set (c1 := px c - px b) in *. set (c2 := py c - py b) in *.
+  set (p1 := px p - px b) in *. set (p2 := py p - py b) in *.
+  assert (A1 : a1 <= 0) by (unfold a1, a2, c1, c2, p1, p2 in *; lra). assert (C1 : 0 < c1) by (unfold a1, a2, c1, c2, p1, p2 in *; lra).
+  assert (P1 : 0 < p1) by (unfold a1, a2, c1, c2, p1, p2 in *; lra).
+  assert (E4 : 0 < a1 * c2 - a2 * c1) by (unfold a1, a2, c1, c2, p1, p2 in *; lra).
+  assert (E5 : c1 * p2 - c2 * p1 <= 0) by (unfold a1, a2, c1, c2, p1, p2 in *; lra).
+  assert (G : a2 * p1 - a1 * p2 <= 0).
+  { assert (K1 : 0 <= (- a1) * (- (c1 * p2 - c2 * p1))) by (apply Qmult_le_0_compat; lra).
+    assert (K2 : 0 < p1 * (a1 * c2 - a2 * c1)) by (apply Qmult_lt_0_compat; lra).
+    assert (K3 : c1 * (a2 * p1 - a1 * p2) <= 0) by lra.
+    destruct (Qlt_le_dec 0 (a2 * p1 - a1 * p2)) as [L|L]; [|exact L].
+    assert (0 < c1 * (a2 * p1 - a1 * p2)) by (apply Qmult_lt_0_compat; lra). lra. }
+  unfold a1, a2, c1, c2, p1, p2 in *. lra.
+Qed.
+
+(* p to the right of a, below the edge a->b (a.x < b.x), b below the line a->c: p below a->c *)
+Lemma cross_right a b c p : px a < px b -> px b <= px c -> px a <= px p ->
+  cross a b p <= 0 -> cross a c b <= 0 -> cross a c p <= 0.
+Proof.
+  unfold cross. intros H1 H2 H3 H4 H5.
+  set (b1 := px b - px a) in *. set (b2 := py b - py a) in *.
+  set (c1 := px c - px a) in *. set (c2 := py c - py a) in *.
+  set (p1 := px p - px a) in *. set (p2 := py p - py a) in *.
+  assert (B1 : 0 < b1) by (unfold b1, b2, c1, c2, p1, p2 in *; lra). assert (C1 : 0 <= c1) by (unfold b1, b2, c1, c2, p1, p2 in *; lra).
+  assert (P1 : 0 <= p1) by (unfold b1, b2, c1, c2, p1, p2 in *; lra).
+  assert (K1 : 0 <= c1 * (- (b1 * p2 - b2 * p1))) by (apply Qmult_le_0_compat; lra).
+  assert (K2 : 0 <= p1 * (- (c1 * b2 - c2 * b1))) by (apply Qmult_le_0_compat; lra).
+  assert (K3 : b1 * (c1 * p2 - c2 * p1) <= 0) by lra.
+  destruct (Qlt_le_dec 0 (c1 * p2 - c2 * p1)) as [L|L]; [|exact L].
+  assert (0 < b1 * (c1 * p2 - c2 * p1)) by (apply Qmult_lt_0_compat; lra). lra.
+Qed.
+
+(* p to the left of b, below the edge a->b (a.x < b.x), b strictly above the line a->c, c right of b *)
+Lemma cross_left a b c p : px a < px b -> px b <= px c -> px p <= px b ->
+  cross a b p <= 0 -> 0 < cross a c b -> cross b c p <= 0.
+Proof.
+  unfold cross. intros H1 H2 H3 H4 H5.
+  set (a1 := px a - px b) in *. set (a2 := py a - py b) in *.
+  set (c1 := px c - px b) in *. set (c2 := py c - py b) in *.
+  set (p1 := px p - px b) in *. set (p2 := py p - py b) in *.
+  assert (A1 : a1 < 0) by (unfold a1, a2, c1, c2, p1, p2 in *; lra). assert (C1 : 0 <= c1) by (unfold a1, a2, c1, c2, p1, p2 in *; lra).
+  assert (P1 : p1 <= 0) by (unfold a1, a2, c1, c2, p1, p2 in *; lra).
+  assert (E4 : a2 * p1 - a1 * p2 <= 0) by (unfold a1, a2, c1, c2, p1, p2 in *; lra).
+  assert (E5 : 0 < a1 * c2 - a2 * c1) by (unfold a1, a2, c1, c2, p1, p2 in *; lra).
+  assert (K1 : 0 <= c1 * (- (a2 * p1 - a1 * p2))) by (apply Qmult_le_0_compat; lra).
+  assert (K2 : 0 <= (- p1) * (a1 * c2 - a2 * c1)) by (apply Qmult_le_0_compat; lra).
+  assert (K3 : (- a1) * (c1 * p2 - c2 * p1) <= 0) by lra.
+  destruct (Qlt_le_dec 0 (c1 * p2 - c2 * p1)) as [L|L]; [|exact L].
+  assert (0 < (- a1) * (c1 * p2 - c2 * p1)) by (apply Qmult_lt_0_compat; lra). lra.
+Qed.
+
+(* adjacent pairs of the stack: Q lower upper *)
+Fixpoint edges (st : list pt) (Q : pt -> pt -> Prop) : Prop :=
+  match st with
+  | b :: st' => match st' with a :: _ => Q a b /\ edges st' Q | [] => True end
+  | [] => True
+  end.
+
+Lemma edges_tail a st Q : edges (a :: st) Q -> edges st Q.
+Proof. cbn [edges]. destruct st as [|b r]; [intros _; exact I | intros [_ H]; exact H]. Qed.
+Lemma edges_suffix pre s Q : edges (pre ++ s) Q -> edges s Q.
+Proof. induction pre as [|a pre IH]; [auto|]. intro H. apply IH, (edges_tail a), H. Qed.
+Lemma edges_and st (Q1 Q2 Q : pt -> pt -> Prop) : (forall a b, Q1 a b -> Q2 a b -> Q a b) ->
+  edges st Q1 -> edges st Q2 -> edges st Q.
+Proof.
+  intro HQ. induction st as [|b st IH]; [auto|]. cbn [edges]. destruct st as [|a r]; [auto|].
+  intros [A1 A2] [B1 B2]. split; [apply HQ; assumption | apply IH; assumption].
+Qed.
+Lemma edges_nth st Q : edges st Q -> forall j, (S j < length st)%nat -> Q (nth (S j) st dpt) (nth j st dpt).
+Proof.
+  induction st as [|b st IH]; intros H j Hj; [cbn in Hj; lia|].
+  destruct j as [|j].
+  - destruct st as [|a r]; [cbn in Hj; lia|]. cbn [edges] in H. cbn [nth]. apply H.
+  - cbn [nth length] in *. apply IH; [apply (edges_tail b), H | lia].
+Qed.
+
+Definition below_all (P : list pt) (a b : pt) : Prop := forall p, In p P -> cross a b p <= 0.
+Definition Hr (P : list pt) (r2 t : pt) : Prop := forall p, In p P -> px t <= px p -> cross t r2 p <= 0.
+
+(* r2 (to the right of the whole stack, below its top edge) is below every edge line *)
+Lemma below_chain p : forall s, conc s -> dec_chain s ->
+  match s with t :: t1 :: _ => cross t1 t p <= 0 /\ px t <= px p | _ => True end ->
+  edges s (fun a b => cross a b p <= 0).
+Proof.
+  induction s as [|t s' IH]; intros Hc Hd H; [exact I|].
+  cbn [edges]. destruct s' as [|t1 s'']; [exact I|]. destruct H as [H1 H2]. split; [exact H1|].
+  apply IH; [apply (conc_tail t), Hc | apply (dec_chain_tail t), Hd |].
+  destruct s'' as [|t2 s3]; [exact I|].
+  cbn [conc] in Hc. destruct Hc as [Hc _]. apply drop_test_false in Hc.
+  cbn [dec_chain] in Hd. destruct Hd as [Hd1 [Hd2 _]].
+  assert (X21 : px t2 <= px t1) by (destruct s3; lra).
+  split; [|lra]. apply (cross_chain t2 t1 t p); try assumption.
+Qed.
+
+(* the popping loop keeps: every processed point to the right of the current top is below top->r2 *)
+Lemma pop_Hr P r2 : (forall p, In p P -> pt_le p r2) -> forall st, dec_chain st -> edges st pt_le ->
+  (forall a, In a st -> px a <= px r2) -> edges st (below_all P) ->
+  match st with t :: _ => Hr P r2 t | [] => True end ->
+  match pop_stack st r2 with t :: _ => Hr P r2 t | [] => True end.
+Proof.
+  intros SP. induction st as [|r1 st' IH]; intros Hd Hl Hx HU HH; [exact I|].
+  cbn [pop_stack]. destruct st' as [|r0 rest]; [exact HH|].
+  destruct (drop_test r0 r1 r2) eqn:E; [|exact HH].
+  apply drop_test_true in E.
+  apply IH; [apply (dec_chain_tail r1), Hd | apply (edges_tail r1), Hl | intros a Ha; apply Hx; right; exact Ha
+            | apply (edges_tail r1), HU |].
+  cbn [edges] in HU, Hl. destruct HU as [HU _]. destruct Hl as [Hl _].
+  cbn [dec_chain] in Hd. destruct Hd as [Hd _].
+  assert (X01 : px r0 <= px r1) by (destruct rest; lra).
+  assert (X12 : px r1 <= px r2) by (apply Hx; left; reflexivity).
+  intros p Hp Hpx. specialize (HU p Hp).
+  destruct (Qlt_le_dec (px r0) (px r1)) as [L|L].
+  - apply (cross_right r0 r1 r2 p); assumption.
+  - assert (EX : px r0 == px r1) by lra.
+    destruct Hl as [Hl|[_ Hl]]; [lra|].
+    destruct (Qlt_le_dec (py r0) (py r1)) as [LY|LY].
+    + (* r1 strictly above r0 on the same vertical: dropping it forces r2 onto that vertical too *)
+      unfold cross in E, HU |- *. rewrite <- EX in E.
+      assert (Z : (px r2 - px r0) * (py r1 - py r0) <= 0) by lra.
+      assert (C0 : 0 <= px r2 - px r0) by lra.
+      assert (Z2 : 0 <= (px r2 - px r0) * (py r1 - py r0)) by (apply Qmult_le_0_compat; lra).
+      assert (Z3 : px r2 - px r0 == 0).
+      { destruct (Qlt_le_dec 0 (px r2 - px r0)) as [G|G]; [|lra].
+        assert (0 < (px r2 - px r0) * (py r1 - py r0)) by (apply Qmult_lt_0_compat; lra). lra. }
+      pose proof (pt_le_px _ _ (SP p Hp)) as PX.
+      assert (P0 : px p - px r0 == 0) by lra.
+      rewrite Z3, P0. lra.
+    + (* r1 and r0 coincide *)
+      assert (EY : py r0 == py r1) by lra.
+      assert (G := HH p Hp ltac:(lra)). unfold cross in G |- *. rewrite EX, EY. exact G.
+Qed.
+
+Lemma pt_le_refl a : pt_le a a.
+Proof. right. split; lra. Qed.
+
+Lemma edges_dec_chain_strict t t1 t2 r : dec_chain (t :: t1 :: t2 :: r) -> px t1 < px t.
+Proof. cbn [dec_chain]. intros [H _]. exact H. Qed.
+
+(* one step of the for loop preserves "every edge of the stack has all processed points on/below" *)
+Lemma U_step P r2 st init bt : st = init ++ [bt] -> dec_chain st -> conc st -> edges st pt_le ->
+  edges st (below_all P) -> (forall p, In p P -> pt_le p r2) -> (forall a, In a st -> pt_le a r2) ->
+  (forall p, In p P -> pt_le bt p) ->
+  (match st with t :: _ => forall p, In p P -> pt_le p t | [] => True end) ->
+  edges (hull_step st r2) (below_all (r2 :: P)).
+Proof.
+  intros Est Hd Hc Hl HU SP SA BP TM. unfold hull_step.
+  destruct (pop_stack_spec st r2) as ((pre & Hp) & Hne & Ht).
+  assert (Hne' : pop_stack st r2 <> []) by (apply Hne; rewrite Est; destruct init; discriminate).
+  assert (HX : forall a, In a st -> px a <= px r2) by (intros a Ha; apply pt_le_px, SA, Ha).
+  assert (HH0 : match st with t :: _ => Hr P r2 t | [] => True end).
+  { destruct st as [|t st0]; [exact I|]. intros p Hpp Hpx.
+    pose proof (TM p Hpp) as [A|[A B]]; [lra|].
+    pose proof (HX t ltac:(left; reflexivity)) as XT.
+    unfold cross. rewrite A.
+    assert (0 <= (px r2 - px t) * (py t - py p)) by (apply Qmult_le_0_compat; lra). lra. }
+  pose proof (pop_Hr P r2 SP st Hd Hl HX HU HH0) as HH.
+  assert (Hds : dec_chain (pop_stack st r2)) by (apply (dec_chain_suffix pre); rewrite <- Hp; exact Hd).
+  assert (Hcs : conc (pop_stack st r2)) by (apply (conc_suffix pre); rewrite <- Hp; exact Hc).
+  assert (HUs : edges (pop_stack st r2) (below_all P)) by (apply (edges_suffix pre); rewrite <- Hp; exact HU).
+  assert (Hbt : exists i', pop_stack st r2 = i' ++ [bt]).
+  { apply (suffix_bottom pre _ init); [rewrite <- Hp; exact Est | exact Hne']. }
+  assert (Hin : forall a, In a (pop_stack st r2) -> In a st) by (intros a Ha; apply (pop_stack_incl _ _ _ Ha)).
+  destruct (pop_stack st r2) as [|t s'] eqn:Es; [contradiction|].
+  assert (XT : px t <= px r2) by (apply HX, Hin; left; reflexivity).
+  cbn [edges]. split.
+  - (* the new edge t -> r2 *)
+    intros p [<-|Hpp]; [rewrite cross_self; lra|].
+    destruct (Qlt_le_dec (px p) (px t)) as [L|L]; [|apply HH; assumption].
+    destruct s' as [|t1 s''].
+    + destruct Hbt as (i' & Hi). destruct i' as [|x [|y i']]; cbn in Hi; try discriminate.
+      inversion Hi; subst t. pose proof (pt_le_px _ _ (BP p Hpp)). lra.
+    + apply drop_test_false in Ht.
+      cbn [edges] in HUs. destruct HUs as [HUe _]. specialize (HUe p Hpp).
+      assert (X1 : px t1 <= px t).
+      { cbn [dec_chain] in Hds. destruct Hds as [Hds _]. destruct s''; lra. }
+      destruct (Qlt_le_dec (px t1) (px t)) as [L1|L1].
+      * apply (cross_left t1 t r2 p); try assumption; lra.
+      * (* t1 on the same vertical as t: t1 is the bottom, and p would be left of it *)
+        destruct s'' as [|t2 s3]; [|pose proof (edges_dec_chain_strict _ _ _ _ Hds); lra].
+        destruct Hbt as (i' & Hi). destruct i' as [|x [|y [|z i']]]; cbn in Hi; try discriminate.
+        inversion Hi; subst. pose proof (pt_le_px _ _ (BP p Hpp)). lra.
+  - (* old edges: r2 is below them, the processed points were *)
+    change (edges (t :: s') (below_all (r2 :: P))).
+    apply (edges_and _ (fun a b => cross a b r2 <= 0) (below_all P)).
+    + intros a b Q1 Q2 p [<-|Hpp]; [exact Q1 | apply Q2; exact Hpp].
+    + apply below_chain; try assumption. destruct s' as [|t1 s'']; [exact I|].
+      apply drop_test_false in Ht. split; [rewrite cross_swap; lra | exact XT].
+    + exact HUs.
+Qed.
+
+Lemma hull_rev_upper : forall pts st P init bt, st = init ++ [bt] -> lsorted pts ->
+  dec_chain st -> conc st -> edges st pt_le -> edges st (below_all P) ->
+  (forall p b, In p P -> In b pts -> pt_le p b) -> (forall a b, In a st -> In b pts -> pt_le a b) ->
+  (forall p, In p P -> pt_le bt p) -> (forall b, In b pts -> pt_le bt b) ->
+  (match st with t :: _ => forall p, In p P -> pt_le p t | [] => True end) ->
+  edges (fold_left hull_step pts st) (below_all (rev pts ++ P)).
+Proof.
+  induction pts as [|r2 pts IH]; intros st P init bt Est Hs Hd Hc Hl HU SP SA BP BB TM.
+  - cbn. exact HU.
+  - cbn [fold_left rev]. rewrite <- app_assoc. cbn [app].
+    destruct Hs as [Hs1 Hs2].
+    destruct (pop_stack_spec st r2) as ((pre & Hp) & Hne & _).
+    assert (Hne' : pop_stack st r2 <> []) by (apply Hne; rewrite Est; destruct init; discriminate).
+    destruct (suffix_bottom pre (pop_stack st r2) init bt ltac:(rewrite <- Hp; exact Est) Hne') as (i' & Hi).
+    apply (IH (hull_step st r2) (r2 :: P) (r2 :: i') bt).
+    + unfold hull_step. rewrite Hi. reflexivity.
+    + exact Hs2.
+    + apply dec_chain_step; [exact Hd|]. intros a Ha. apply SA; [exact Ha | left; reflexivity].
+    + apply conc_step, Hc.
+    + unfold hull_step. assert (Hls : edges (pop_stack st r2) pt_le) by (apply (edges_suffix pre); rewrite <- Hp; exact Hl).
+      destruct (pop_stack st r2) as [|t s'] eqn:Es; [contradiction|]. cbn [edges]. split; [|exact Hls].
+      apply SA; [apply (pop_stack_incl st r2); rewrite Es; left; reflexivity | left; reflexivity].
+    + apply (U_step P r2 st init bt); try assumption.
+      * intros p Hp'. apply SP; [exact Hp' | left; reflexivity].
+      * intros a Ha. apply SA; [exact Ha | left; reflexivity].
+    + intros p b [<-|Hp'] Hb; [apply Hs1; exact Hb | apply SP; [exact Hp' | right; exact Hb]].
+    + intros a b [<-|Ha] Hb; [apply Hs1; exact Hb|].
+      apply SA; [apply (pop_stack_incl _ _ _ Ha) | right; exact Hb].
+    + intros p [<-|Hp']; [apply BB; left; reflexivity | apply BP; exact Hp'].
+    + intros b Hb. apply BB. right; exact Hb.
+    + unfold hull_step. intros p [<-|Hp']; [apply pt_le_refl | apply SP; [exact Hp' | left; reflexivity]].
+Qed.
+
+Lemma is_upper_hull_of_nth h pts :
+  (forall i, (S i < length h)%nat -> forall p, In p pts -> cross (nth i h dpt) (nth (S i) h dpt) p <= 0) ->
+  is_upper_hull h pts = true.
+Proof.
+  induction h as [|a t IH]; intro H; [reflexivity|].
+  cbn [is_upper_hull]. destruct t as [|b t']; [reflexivity|].
+  apply andb_true_iff. split.
+  - apply forallb_forall. intros p Hp. apply Qleb_le. apply (H 0%nat); [cbn; lia | exact Hp].
+  - apply IH. intros i Hi p Hp. apply (H (S i)); [cbn [length] in *; lia | exact Hp].
+Qed.
+
+(* hull_is_upper_hull: for every list sorted by (x, y), no point of the list lies above the line
+   through two consecutive points of the returned chain *)
+Theorem hull_is_upper_hull pts : lsorted pts -> is_upper_hull (hull pts) pts = true.
+Proof.
+  intro Hs. destruct pts as [|p0 ps]; [reflexivity|].
+  apply is_upper_hull_of_nth. unfold hull, hull_rev. cbn [fold_left]. change (hull_step [] p0) with [p0].
+  destruct Hs as [Hs1 Hs2].
+  assert (HU : edges (fold_left hull_step ps [p0]) (below_all (rev ps ++ [p0]))).
+  { apply (hull_rev_upper ps [p0] [p0] [] p0); try assumption; try reflexivity; try exact I.
+    - intros p b [<-|[]] Hb. apply Hs1, Hb.
+    - intros a b [<-|[]] Hb. apply Hs1, Hb.
+    - intros p [<-|[]]. apply pt_le_refl.
+    - intros p [<-|[]]. apply pt_le_refl. }
+  set (st := fold_left hull_step ps [p0]) in *.
+  rewrite rev_length. intros i Hi p Hp.
+  rewrite !rev_nth by lia.
+  pose proof (edges_nth st _ HU (length st - S (S i)) ltac:(lia)) as H.
+  replace (S (length st - S (S i))) with (length st - S i)%nat in H by lia.
+  apply H. apply in_or_app. destruct Hp as [<-|Hp]; [right; left; reflexivity | left; apply in_rev in Hp; exact Hp].
+Qed.
